@@ -122,6 +122,14 @@ def k_seq(run, case):
     for k in range(1, n):
         if arr["t"][k] <= arr["t"][k - 1]:
             arr["t"][k] = arr["t"][k - 1] + 1e-3
+    if rng.random() < .25:
+        # attitudes looking straight up / down (pitch exactly +-90 degrees: gimbal lock of the roll-pitch-yaw split)
+        for k in range(n):
+            if rng.random() < .3:
+                sgn = 1.0 if rng.random() < .5 else -1.0
+                Ry = np.array([[0.0, 0.0, sgn], [0.0, 1.0, 0.0], [-sgn, 0.0, 0.0]])
+                arr["R"][k] = rm.rodrigues([0, 0, 1], rng.uniform(-PI, PI)) @ Ry @ rm.rodrigues([1, 0, 0], rng.uniform(-PI, PI)) \
+                    if rng.random() < .5 else Ry
     arr2 = {"p": arr["p"] + rng.normal(size=(n, 3)), "R": arr["R"], "t": arr["t"]}
     stamped = bool(rng.random() < .7)
     smode = case.get("smode") or ("se3" if rng.random() < .5 else "xyzq")
@@ -264,11 +272,10 @@ def k_seq(run, case):
                     ang = np.stack([np.asarray(r.of("plot")[0][1][1], dtype=float) for r in recs], axis=1) * PI / 180
                     worst = 0.0
                     for k in range(n):
-                        cy = math.hypot(R[k][0, 0], R[k][1, 0])
-                        if cy <= 1e-3:
-                            continue
+                        # the plotted triple must recompose to the pose's rotation (also at gimbal
+                        # lock, where roll and yaw are not unique but every valid split recomposes)
                         Rk = rm.rodrigues([0, 0, 1], ang[k, 2]) @ rm.rodrigues([0, 1, 0], ang[k, 1]) @ rm.rodrigues([1, 0, 0], ang[k, 0])
-                        worst = max(worst, float(np.max(np.abs(Rk - R[k]))) * cy)
+                        worst = max(worst, float(np.max(np.abs(Rk - R[k]))))
                     run.check(worst <= 1e-7, "roll/pitch/yaw plot shows the pose's own Euler angles in degrees", case,
                               "%s: plotted roll/pitch/yaw do not reproduce the orientations (%g)" % (where, worst),
                               key="traj_rpy:wrong-y")
